@@ -17,6 +17,13 @@ void IndexedRecordIOSplitter::ResetPartition(unsigned rank, unsigned nsplit) {
   size_t ntotalbytes = file_offset_.back();
   size_t nstep = (ntotal + nsplit - 1) / nsplit;
   if (rank * nstep >= ntotal) {
+    // this part receives no records: make it an empty range at the end of the data instead of
+    // keeping the previous partition (or, when called from the constructor, uninitialised members)
+    index_begin_ = index_end_ = current_index_ = ntotal;
+    offset_begin_ = offset_end_ = offset_curr_ = ntotalbytes;
+    n_overflow_ = 0;
+    permutation_.clear();
+    tmp_chunk_.begin = tmp_chunk_.end = NULL;
     return;
   }
   index_begin_ = rank * nstep;
